@@ -192,36 +192,78 @@ func ruleTrySendOrder(c *Ctx, r *R) {
 		r.undecided("stream.PipeSender.TrySend|missing", token.NoPos, "anchor not found")
 		return
 	}
-	var check, send *ssa.Select
-	for _, op := range chanOpsOf(fn) {
-		sel, ok := op.in.(*ssa.Select)
-		if !ok {
-			continue
+	// typestate: bits 0..2 = arm of the non-blocking check select (ctx.Done / streamDone / senderDone) known NOT taken on this
+	// path; the send on the data channel may be attempted only in state 7 (all three ruled out = the check's default path).
+	// The check and the send may each live in a helper (finished(ctx) / offer(x)).
+	isCheck := func(sel *ssa.Select) map[int]int {
+		if sel.Blocking {
+			return nil
 		}
-		have := map[string]bool{}
-		for _, a := range op.arms {
-			if a.send {
-				if fieldOfChan(a.ch) == "c" {
-					send = sel
-				}
+		which := map[int]int{}
+		for i, st := range sel.States {
+			if st.Dir != types.RecvOnly {
+				return nil
+			}
+			if _, isCtx := ctxDoneOf(st.Chan); isCtx {
+				which[i] = 0
 				continue
 			}
-			if a.kind == "ctx-done" {
-				have["ctx"] = true
-			} else {
-				have[fieldOfChan(a.ch)] = true
+			switch fieldOfChan(st.Chan) {
+			case "streamDone":
+				which[i] = 1
+			case "senderDone":
+				which[i] = 2
+			default:
+				return nil
 			}
 		}
-		if have["ctx"] && have["streamDone"] && have["senderDone"] && !sel.Blocking {
-			check = sel
+		if len(which) != 3 {
+			return nil
+		}
+		return which
+	}
+	pkg := fn.Pkg
+	pf := &PF{N: 8, DeepVisit: true, InScope: func(f *ssa.Function) bool { return f.Pkg == pkg && f.Blocks != nil && f != fn }}
+	pf.Edge = func(f *ssa.Function, g guard, q int) (StateSet, bool) {
+		cf, ok := g.asCmp()
+		if !ok || cf.op != token.NEQ {
+			return 0, false
+		}
+		ex, ok := cf.x.(*ssa.Extract)
+		if !ok || ex.Index != 0 {
+			return 0, false
+		}
+		sel, ok := ex.Tuple.(*ssa.Select)
+		k, isK := cf.y.(*ssa.Const)
+		if !ok || !isK || k.Value == nil {
+			return 0, false
+		}
+		which := isCheck(sel)
+		if which == nil {
+			return 0, false
+		}
+		if bit, ok := which[int(k.Int64())]; ok {
+			return ss(q | 1<<uint(bit)), true
+		}
+		return 0, false
+	}
+	good, sends := true, 0
+	pf.Visit = func(f *ssa.Function, in ssa.Instruction, before StateSet) {
+		sel, ok := in.(*ssa.Select)
+		if !ok {
+			return
+		}
+		for _, st := range sel.States {
+			if st.Dir == types.SendOnly && fieldOfChan(st.Chan) == "c" {
+				sends++
+				if before != ss(7) {
+					good = false
+				}
+			}
 		}
 	}
-	good := false
-	if check != nil && send != nil && check != send {
-		if d := selectDefaultBody(check); d != nil && d.Dominates(send.Block()) {
-			good = true
-		}
-	}
+	pf.Exits(fn, ss(0))
+	good = good && sends >= 1
 	r.ok(good, "stream.PipeSender.TrySend|closed-check-before-send", fn.Pos(), "TrySend must first check (non-blockingly) ctx, streamDone and senderDone and attempt the send only on that select's default path: a send tried first succeeds on a closed pipe with buffer space, and the receiver gets a value after it was told about the end")
 }
 
@@ -405,6 +447,30 @@ func rulePipePublish(c *Ctx, r *R) {
 		nreads := 0
 		scan := []*ssa.Function{fn}
 		scan = append(scan, helpers...)
+		// helpers the function is built from (finished(ctx), …): a read there is judged by the arms of that helper itself
+		ownBodies := map[*ssa.Function][]*ssa.BasicBlock{}
+		for _, fr := range deepFrames(fn, 2) {
+			if fr.f == fn {
+				continue
+			}
+			dup := false
+			for _, h := range scan {
+				if h == fr.f {
+					dup = true
+				}
+			}
+			if dup {
+				continue
+			}
+			for _, op := range chanOpsOf(fr.f) {
+				for _, a := range op.arms {
+					if !a.send && fieldOfChan(a.ch) == "senderDone" && a.body != nil {
+						ownBodies[fr.f] = append(ownBodies[fr.f], a.body)
+					}
+				}
+			}
+			scan = append(scan, fr.f)
+		}
 		for _, sf := range scan {
 		sf := sf
 		instrs(sf, func(b *ssa.BasicBlock, i int, in ssa.Instruction) {
@@ -417,9 +483,15 @@ func rulePipePublish(c *Ctx, r *R) {
 				return
 			}
 			nreads++
-			dom := sf != fn // inside a helper that is only reachable from a senderDone arm
+			_, judgedLocally := ownBodies[sf]
+			dom := sf != fn && !judgedLocally // inside a helper that is only reachable from a senderDone arm
 			for _, bb := range bodies {
 				if sf == fn && bb.Dominates(b) {
+					dom = true
+				}
+			}
+			for _, bb := range ownBodies[sf] {
+				if bb.Dominates(b) {
 					dom = true
 				}
 			}
@@ -563,22 +635,32 @@ func rulePipeWhoMayClose(c *Ctx, r *R) {
 		}
 		sends := 0
 		good := true
-		for _, op := range chanOpsOf(fn) {
-			for idx, a := range op.arms {
-				if !a.send {
-					continue
+		for _, fr := range deepFrames(fn, 2) {
+			for _, op := range chanOpsOf(fr.f) {
+				for idx, a := range op.arms {
+					if !a.send {
+						continue
+					}
+					sends++
+					var sent ssa.Value
+					if sel, ok := op.in.(*ssa.Select); ok {
+						sent = sel.States[idx].Send
+					} else if s, ok := op.in.(*ssa.Send); ok {
+						sent = s.X
+					}
+					okSent := sent != nil
+					if okSent {
+						for _, lf := range valueLeaves(sent, fr.chain, 0) {
+							if p, isP := lf.v.(*ssa.Parameter); !isP || p.Parent() != fn {
+								okSent = false
+							}
+						}
+					}
+					if fieldOfChan(a.ch) != "c" || !okSent {
+						good = false
+					}
+					// the arm that sent returns nil / (true, nil)
 				}
-				sends++
-				var sent ssa.Value
-				if sel, ok := op.in.(*ssa.Select); ok {
-					sent = sel.States[idx].Send
-				} else if s, ok := op.in.(*ssa.Send); ok {
-					sent = s.X
-				}
-				if fieldOfChan(a.ch) != "c" || !isParamValue(sent, fn) {
-					good = false
-				}
-				// the arm that sent returns nil / (true, nil)
 			}
 		}
 		r.ok(good && sends == 1, name+"|single-send", fn.Pos(), "exactly one send, of the parameter, on the data channel")
